@@ -418,6 +418,14 @@ class C20(Prop):
             k, i = rrun["fault"]
             if i == "render":
                 continue  # rendering calls do not map 1:1 onto writes (up-to-date files are rendered, not written): predicate only
+            if i == 4:
+                # the buffered model of ONE write (FsBuffered.atomicB): flush fails after half of the bytes
+                n = obs["log"][k]
+                earlier = [j for j in range(k) if obs["log"][j] == n]
+                old = self._content_after_write(obs, earlier[-1]) if earlier else obs["before"].get(n)
+                new = self._content_after_write(obs, k)
+                bop = {"op": "fs_buffered", "old": old, "src": new, "fault": [2, len(new) // 2]}
+                res.append(("fs", bop, {"ok": [rrun["after"].get(n), rrun["after"].get(n + ".doctrans.tmp")]}))
             fault = [k, min(i, 3)]  # (a failure at close is, for the model, a failure before the move: step 3 not done)
             op = {"op": "fs_targets", "files": files, "targets": targets, "fault": fault}
             impl = {"ok": sorted([ids.get(n, -1), rrun["after"].get(n)] for n in set(names) | set(rrun["after"]))}
@@ -433,6 +441,8 @@ class C20(Prop):
         return obs["final"].get(n) or ""
 
     def canon_model(self, layer, op, ans):
+        if layer == "fs" and op.get("op") == "fs_buffered":
+            return ans
         if layer == "fs" and "ok" in ans:
             return {"ok": sorted(ans["ok"])}
         if layer == "cli" and op["op"] == "cli_sync" and "ok" in ans:
